@@ -460,6 +460,40 @@ def interleave(r, sels, nh=4, force=False):
     return b
 
 
+def builders(r, n=None):
+    """hashers handed out by `HighwayBuildHasher`: several builders with different keys used in turn
+    (same stack slot in the runner), several hashers per builder, interleaved use; each must behave
+    exactly like `HighwayHasher::new(key)` and independently of the others"""
+    b = B("builders", ["buildhasher"])
+    n = n or r.randrange(2, 6)
+    keys = [rkey(r) for _ in range(r.randrange(1, 4))]
+    plan = []
+    for h in range(n):
+        k = r.choice(keys)
+        data = rbytes(r, r.choice((0, 1, 8, 12, 31, 32, 33, 64, 70)))
+        plan.append((h, k, data))
+        if r.random() < 0.15:
+            b.op(f"bhd {h}")
+            plan[-1] = (h, (0, 0, 0, 0), data)
+        else:
+            b.op(f"bh {h} {kstr(k)}")
+        if r.random() < 0.5:
+            b.op(f"hwrite {h} {hexbytes(data[:len(data) // 2])}")
+            plan[-1] = plan[-1] + (len(data) // 2,)
+        else:
+            plan[-1] = plan[-1] + (0,)
+    order = list(range(n))
+    r.shuffle(order)
+    for h in order:
+        _, k, data, done = plan[h]
+        b.op(f"hwrite {h} {hexbytes(data[done:])}")
+        t = b.op(f"debug {h}")
+        f = b.op(f"finish {h}")
+        j = b.op(f"hash auto 64 {kstr(k)} {hexbytes(data)}")
+        b.eq(f, j, "a hasher handed out by HighwayBuildHasher differs from HighwayHasher::new(key) on the same bytes")
+    return b
+
+
 def adapters(r, sels, force=False, std=True):
     """Hasher::finish repeatable/interleavable, io::Write::write consumes everything, flush is a no-op"""
     sel = r.choice(sels)
